@@ -16,8 +16,8 @@ import (
 
 	sdk "github.com/cosmos/cosmos-sdk/types"
 	"github.com/ethereum/go-ethereum/common"
-	ethcrypto "github.com/ethereum/go-ethereum/crypto"
 	"github.com/ethereum/go-ethereum/core/types/goattypes"
+	ethcrypto "github.com/ethereum/go-ethereum/crypto"
 	bitcointypes "github.com/goatnetwork/goat/x/bitcoin/types"
 	relayertypes "github.com/goatnetwork/goat/x/relayer/types"
 	"pgregory.net/rapid"
@@ -88,13 +88,13 @@ type acceptedVote struct {
 }
 
 type relWorld struct {
-	f        *voteFixture
-	m        *relModel
-	history  []acceptedVote
-	nt       map[string]bool
-	elections int
+	f                       *voteFixture
+	m                       *relModel
+	history                 []acceptedVote
+	nt                      map[string]bool
+	elections               int
 	electedNow, propRemoved bool
-	prevProposer string
+	prevProposer            string
 }
 
 func relMember(i int) (world.Account, world.BLSKey) { return world.RelayerMember(i) }
